@@ -218,9 +218,23 @@ def reference(coding, body):
         out = inflate_once(16 + zlib.MAX_WBITS, body)
         return ('ok', out) if out is not None else ('err',)
     out = inflate_once(zlib.MAX_WBITS, body)
+    if out is not None:
+        return ('ok', out)
+    out = inflate_once(-zlib.MAX_WBITS, body)
     if out is None:
-        out = inflate_once(-zlib.MAX_WBITS, body)
-    return ('ok', out) if out is not None else ('err',)
+        return ('err',)
+    if len(body) >= 2 and rfc1950_header(body[0], body[1]):
+        # A raw deflate stream that starts with a stored block whose ignored padding bits and length byte
+        # happen to spell a valid zlib header (no compressor emits this; only the crafted generator does).
+        # Which reading is "right" cannot be decided from a bounded prefix, so the property's sentence
+        # (pieces = whole body at once) is all that is demanded: refusing it is acceptable.
+        return ('ambiguous', out)
+    return ('ok', out)
+
+
+def rfc1950_header(cmf, flg):
+    """RFC 1950 section 2.2, written from the RFC: CM=8, CINFO<=7, FCHECK, no FDICT."""
+    return cmf % 16 == 8 and cmf // 16 <= 7 and (cmf << 8 | flg) % 31 == 0 and not (flg >> 5) & 1
 
 
 def monitor_zlib(ctx, log, case):
@@ -281,6 +295,23 @@ def compress(rng, fmt, payload):
                            compresslevel=rng.choice([1, 6, 9]), mtime=rng.randrange(2 ** 31)) as g:
             g.write(payload)
         return buf.getvalue(), 'gzipfile'
+    if fmt == 'raw' and rng.random() < 0.25:
+        # hand-assembled stored blocks; the 5 padding bits after the block type are ignored by inflate,
+        # so the first byte (and with the length byte the first two) can be made to look like anything
+        body = b''
+        chunks, i = [], 0
+        while i < len(payload):
+            n = rng.choice([0, 1, 2, 7, 28, 59, 90, 121, 152]) if rng.random() < 0.5 else rng.randrange(0, 200)
+            chunks.append(payload[i:i + n])
+            i += n
+        if not chunks or rng.random() < 0.3:
+            chunks.append(b'')
+        k = rng.random()
+        for j, ch in enumerate(chunks):
+            final = 1 if j == len(chunks) - 1 else 0
+            pad = rng.choice([1, 3, 5, 7, 9, 11, 13, 15]) if (j == 0 and k < 0.7) else rng.randrange(32)
+            body += bytes([final | (pad << 3)]) + len(ch).to_bytes(2, 'little') + (len(ch) ^ 0xffff).to_bytes(2, 'little') + ch
+        return body, 'stored-crafted'
     wbits = {'gzip': 16 + wb, 'zlib': wb, 'raw': -wb}[fmt]
     c = zlib.compressobj(level, zlib.DEFLATED, wbits, rng.choice([1, 8, 9]), strategy)
     body = b''
@@ -468,7 +499,7 @@ class Batch:
         self.rows = []
 
 
-def check_case(ctx, batch, coding, body, cutsets, meta, whole_cache=None):
+def check_case(ctx, batch, coding, body, cutsets, meta):
     """Run one (coding, body) under every cut set: co-simulation rows + the direct oracle."""
     ref = reference(coding, body)
     whole = None
@@ -500,7 +531,11 @@ def oracle(ctx, case, coding, body, res, whole, ref, meta, where='stream'):
         ctx.fail('split-dependent', where, case,
                  'pieces give %s but the whole body at once gives %s' % (fmt_res(res)[:120], fmt_res(whole)[:120]))
         return
-    if ref[0] == 'ok':
+    if ref[0] == 'ambiguous':
+        ctx.tag('oracle:ambiguous-deflate-prefix')
+        if res != ('ok', ref[1]) and res != ('exc', 'ProtocolError'):
+            ctx.fail('wrong-content', where, case, 'ambiguous deflate prefix: neither the raw-deflate content nor ProtocolError: %s' % fmt_res(res)[:160])
+    elif ref[0] == 'ok':
         if res != ('ok', ref[1]):
             ctx.fail('wrong-content', where, case,
                      'one-shot zlib gives %d bytes, the decoder gives %s' % (len(ref[1]), fmt_res(res)[:160]))
@@ -764,8 +799,10 @@ def replay(ctx, case, kind=None, where=None):
     if s == 'body':
         cuts = case.get('cuts')
         if cuts is None:
-            from engines.c17 import cuts_of
-            cuts = cuts_of(case['pieces'])
+            cuts, n = [], 0
+            for piece in case['pieces'][:-1]:
+                n += len(piece)
+                cuts.append(n)
         body = case['body']
         check_case(ctx, batch, case['coding'], body, [cuts], dict(case.get('meta') or {}, mut=case.get('mut', 'valid')))
         batch.flush()
@@ -800,12 +837,12 @@ def run(ctx):
     ctx.note('hdr', 'all 65 536 two-byte prefixes compared with is_zlib_header and with zlib itself (exhaustive for this function)')
     stream_coding(ctx, CODING_VALUES + [None])
     batch = Batch(ctx)
-    family_valid(ctx, rng, batch, ctx.scale(60, 1500), every_two_limit=64 if not thorough else 96)
+    family_valid(ctx, rng, batch, ctx.scale(100, 2500), every_two_limit=64 if not thorough else 96)
     family_truncated(ctx, rng, batch, ctx.scale(12, 300))
-    family_corrupt(ctx, rng, batch, ctx.scale(500, 15000))
+    family_corrupt(ctx, rng, batch, ctx.scale(1000, 30000))
     family_large(ctx, rng, batch, ctx.scale(20, 400))
     family_wrapper(ctx, rng, batch, ctx.scale(150, 4000))
-    family_e2e(ctx, rng, ctx.scale(120, 3000))
+    family_e2e(ctx, rng, ctx.scale(200, 4000))
 
 
 def search(ctx):
